@@ -5,6 +5,8 @@ mod core;
 mod flavour;
 mod l1;
 mod l2;
+#[cfg(feature = "l3")]
+mod l3;
 mod rng;
 mod val;
 
@@ -108,6 +110,34 @@ fn main() {
             println!("scen={} runs={} fails={} wall={:.2}s ({:.1} us/run) steps/run={:.1} sim_ms/run={:.1} nontrivial_distinct={}", name, runs, nfail, dt, dt * 1e6 / runs as f64, steps as f64 / runs as f64, simt as f64 / runs as f64, nontrivial.len());
             println!("faults: {:?}", stats.faults);
             println!("probes: {:?}", stats.probes);
+        }
+        #[cfg(feature = "l3")]
+        "l3" => {
+            let name = arg_val(&args, "--scen").unwrap_or("T-mutex".into());
+            let runs: u64 = arg_val(&args, "--runs").and_then(|s| s.parse().ok()).unwrap_or(5_000);
+            let seed: u64 = arg_val(&args, "--seed").and_then(|s| s.parse().ok()).unwrap_or(1);
+            let threads: usize = arg_val(&args, "--threads").and_then(|s| s.parse().ok()).unwrap_or(16);
+            let gate = arg_val(&args, "--gate").unwrap_or("C03".into());
+            let def = l3::scen_by_name(&name).expect("unknown scenario");
+            l3::install_sched_hook();
+            let mut over = core::Cfg::new();
+            for (i, a) in args.iter().enumerate() {
+                if a == "--set" {
+                    if let Some((k, v)) = args.get(i + 1).and_then(|kv| kv.split_once('=')) {
+                        over.insert(k.to_string(), v.parse().unwrap());
+                    }
+                }
+            }
+            let t0 = Instant::now();
+            let out = l3::run_batch(def, seed, 0, runs, &gate, threads, &over, false, 5, None);
+            let dt = t0.elapsed().as_secs_f64();
+            println!("scen={} runs={} wall={:.2}s ({:.1} us/run/thread) steps/run={:.1} preemptions/run={:.1} distinct_schedules={} found={} notes={:?}",
+                name, out.runs, dt, dt * 1e6 * threads as f64 / out.runs.max(1) as f64, out.steps as f64 / out.runs.max(1) as f64, out.preemptions as f64 / out.runs.max(1) as f64, out.nontrivial.len(), out.found.len(), out.notes);
+            for f in out.found.iter().take(3) {
+                let fl = &f.fails[0];
+                let t = l3::minimise(def, &f.cfg, &f.trace, &fl.prop, &fl.oracle, 200);
+                println!("run {} FAIL {}:{} {}\n  cfg {:?}\n  decisions {} -> {}, draws {}", f.run_index, fl.prop, fl.oracle, fl.msg, f.cfg, f.trace.decisions.len(), t.decisions.len(), t.draws.len());
+            }
         }
         "check" => {
             let prop = args.get(2).cloned().unwrap_or_default();
